@@ -568,6 +568,15 @@ func runP2Big(args []string) error {
 			sc = longNameScenario(rng)
 		} else if idx == 27 || idx == 30 {
 			sc = zeroTailScenario(rng, idx)
+		} else if idx == 33 {
+			// the stale-volume set again, with BOTH files to be rewritten in one Repair (several goroutines, no double check)
+			sc = staleScenario(rng)
+			sc.g, sc.dc = 4, false
+			sc.desc += " (both files lost)"
+			sc.damage = func(rng *rand.Rand, sc *scenario, disk map[string][]byte) []string {
+				disk["big.bin"], disk["small.bin"] = nil, nil
+				return []string{"delete big.bin", "delete small.bin"}
+			}
 		} else {
 			sc = makeScenario(rng, idx, thorough)
 		}
